@@ -156,7 +156,7 @@ theorem terminate_watch (cfg : Cfg) (o : Orc) :
   refine Triple.seq (Triple.whenM (fun _ => closeFile_watch)) ?_
   refine Triple.bind (rotatePrep_gen watch_leafs _ _ _) (fun old => ?_)
   refine Triple.seq (Triple.whenM (fun _ => finishOld_gen watch_leafs _ _ _)) ?_
-  simp only [whenM, ↓reduceIte]
+  simp only [whenM, Gen.termRecreateTest, ↓reduceIte]
   exact Triple.post (createFile_watch cfg _) (fun _ _ h => ⟨h.wi, h.landed⟩)
 
 theorem rotateIfDue_watch (cfg : Cfg) (o : Orc) :
